@@ -30,6 +30,9 @@ def test_summary(out):
 def main():
     outdir, pid, x = sys.argv[1], sys.argv[2].lower(), sys.argv[3]
     checks = [pid.upper()]
+    feat = ""
+    if "--features" in sys.argv:
+        feat = " --features " + sys.argv[sys.argv.index("--features") + 1]
     if "--checks" in sys.argv:
         checks = sys.argv[sys.argv.index("--checks") + 1].split(",")
     diff = os.path.join(outdir, "%s.diff" % x)
@@ -45,7 +48,7 @@ def main():
         demo_name = os.path.basename(demo)[:-3]
         shutil.copy(demo, os.path.join(wt, "strum_tests", "tests", os.path.basename(demo)))
         # 1. demo on the clean tree
-        rc, out = sh("cargo test -p strum_tests --test %s --offline" % demo_name, cwd=wt)
+        rc, out = sh("cargo test -p strum_tests --test %s --offline%s" % (demo_name, feat), cwd=wt)
         p, f = test_summary(out)
         meta["demo_clean"] = {"passed": p, "failed": f, "rc": rc}
         meta["ran"].append("clean tree: cargo test -p strum_tests --test %s --offline -> %d passed, %d failed" % (demo_name, p, f))
@@ -60,7 +63,7 @@ def main():
         meta["suite_with_change"] = {"passed": p, "failed": f, "rc": rc}
         meta["ran"].append("changed tree: cargo test --workspace --no-fail-fast --offline -> %d passed, %d failed (rc %d)" % (p, f, rc))
         shutil.copy(demo, os.path.join(wt, "strum_tests", "tests", os.path.basename(demo)))
-        rc, out = sh("cargo test -p strum_tests --test %s --offline" % demo_name, cwd=wt)
+        rc, out = sh("cargo test -p strum_tests --test %s --offline%s" % (demo_name, feat), cwd=wt)
         p, f = test_summary(out)
         compile_fail = ("error[" in out or "error:" in out) and p + f == 0
         meta["demo_with_change"] = {"passed": p, "failed": f, "rc": rc, "compile_error": compile_fail}
